@@ -359,7 +359,8 @@ def check_case(case):
 def shard(cases):
     acc = core.Acc()
     for case in cases:
-        v, calls = check_case(case)
+        with core.istate(case.get("seq", case["kind"])):
+            v, calls = check_case(case)
         acc.states += 1
         acc.traces += 1
         acc.transitions += calls
@@ -400,6 +401,7 @@ def run(tier, seed, t0):
     cases.sort(key=lambda c: -(len(c["seq"]) ** 3 if "seq" in c else (c["N"] ** 2 / 8 if "N" in c else 10 ** 6)))
     nsh = 16 * 10
     acc = core.pmap(shard, [cases[i::nsh] for i in range(nsh)])
+    acc.merge(core.run_optimized(PROP, tier))      # the rejection battery once more under `python -O`
     return core.finish(
         PROP, tier, seed, acc, t0,
         rule="every word over {L,K,F} of length 1..%d and over {A,S,T,D,E} of length 1..%d x {WF,LC,LZW} x alphabet sizes %s "
@@ -411,6 +413,11 @@ def run(tier, seed, t0):
              "and position row; non-trivial = words with >=2 distinct letters" % (N1, N2, sizes, uas, NL),
         bounds={"N_LKF": N1, "N_ASTDE": N2, "sizes": sizes, "user_alphabets": uas, "lattice_N": NL},
         assumptions=["documented reduced alphabets pinned in vmc/refmodel/tables.py:REDUCED (also judged by C12)"])
+
+
+def opt_shards(tier):
+    return [(shard, [{"kind": "word", "seq": "LKFLK", "sizes": [2, 20], "uas": ["two", "rotation"]}, {"kind": "word", "seq": "ASTD", "sizes": [3, 6], "uas": ["two"]},
+                     {"kind": "inplace-dict", "host": "ACDEFGHIKLMNPQRSTVWYKEKERDTSILVQNYWHM"}])]
 
 
 def replay(case):
